@@ -2,7 +2,7 @@ SPECIFICATION Spec
 CONSTANTS
     Clients = {1}
     MaxReq = 3
-    Cfgs <- CfgQuick
+    Cfgs <- CfgMC
     Calls <- CallsSmall
     Ctxs <- Ctx3
     Mode = "mc"
